@@ -18,6 +18,7 @@ import Hpv.Io
 import Hpv.Obo
 import Hpv.Hpoa
 import Hpv.Store
+import Hpv.Tags
 open Lean
 
 namespace Drv
@@ -676,6 +677,12 @@ def worldJson (w : World) (keys : List SKey) (tmps : List (Ty × Nat)) : Json :=
     ("tmp", toJson ((tmps.filter fun p => (w.files (.tmp p.1 p.2)).isSome).length)),
     ("fetches", toJson (w.log.filterMap fun e => match e with | .fetch _ k => some (Json.arr #[tyName k.ty, toJson k.rel]) | _ => none))]
 
+/-- tag names as code-point lists -> which are production tags, and the latest -/
+def storeTags (j : Json) : Except String Json := do
+  let names ← j.getObjValAs? (List (List Nat)) "names"
+  return Json.mkObj [("prod", toJson (names.map Hpv.Tags.prodTag)),
+    ("latest", match Hpv.Tags.latest names with | none => Json.null | some r => toJson r)]
+
 def storeRun (j : Json) : Except String Json := do
   -- remote: [[ty, rel, bytes]], tags: [[ty, [rels]]], ops
   let remoteL ← (← j.getObjValAs? (List Json) "remote").mapM fun r => do
@@ -735,6 +742,7 @@ def handle (j : Json) : Except String Json := do
   | "onto.lookup" => ontoLookup j
   | "sim.hist" => simHist j
   | "store.run" => storeRun j
+  | "store.tags" => storeTags j
   | "hpoa.load" => hpoaLoad j
   | "obo.load" => oboLoad j
   | "obo.recognise" => oboRecognise j
